@@ -10,6 +10,7 @@ import (
 	"time"
 
 	"github.com/nsqio/nsq/nsqd"
+	"github.com/nsqio/nsq/verifharness/hlib"
 )
 
 // C12: message-id generator. Two modes:
@@ -58,7 +59,7 @@ func guidTrace(args []string) int {
 
 	rng := rand.New(rand.NewSource(*seed))
 	nodes := []int64{0, 1, 511, 1023}
-	w, err := newNDJSON(*out)
+	w, err := hlib.NewNDJSON(*out)
 	if err != nil {
 		fmt.Fprintln(os.Stderr, err)
 		return 2
@@ -70,8 +71,8 @@ func guidTrace(args []string) int {
 	for run := 0; run < *runs; run++ {
 		node := nodes[run%len(nodes)]
 		f := nsqd.VerifNewGUIDFactory(node)
-		rec := &recorder{}
-		rec.install()
+		rec := &hlib.Recorder{}
+		rec.Install()
 		var wg sync.WaitGroup
 		results := make([][]int64, *gor)
 		// some runs start from an injected state: clock stepped back (future lastTs) or sequence nearly exhausted
@@ -110,8 +111,8 @@ func guidTrace(args []string) int {
 			}(g)
 		}
 		wg.Wait()
-		rec.uninstall()
-		evs := rec.take()
+		rec.Uninstall()
+		evs := rec.Take()
 
 		// ---- ledger (Go side, all events): per goroutine strictly increasing, globally unique
 		seen := make(map[int64]struct{}, *gor**per)
@@ -140,7 +141,7 @@ func guidTrace(args []string) int {
 			if e.Ev != "Guid" {
 				continue
 			}
-			ts := kvInt(e, "ts")
+			ts := hlib.KVInt(e, "ts")
 			if base < 0 || ts-1 < base {
 				if base < 0 {
 					base = ts - 1
@@ -151,11 +152,11 @@ func guidTrace(args []string) int {
 			base = injTs - 10
 		}
 		base -= 10
-		w.put(map[string]interface{}{"ev": "Reset"})
+		w.Put(map[string]interface{}{"ev": "Reset"})
 		written := 1
 		if injected {
 			its, inode, isq := unpack(injID)
-			w.put(map[string]interface{}{"ev": "Inject", "n": node, "lastTs": injTs - base, "sq": injSq,
+			w.Put(map[string]interface{}{"ev": "Inject", "n": node, "lastTs": injTs - base, "sq": injSq,
 				"idts": its - base, "idnode": inode, "idsq": isq})
 			written++
 		}
@@ -164,8 +165,8 @@ func guidTrace(args []string) int {
 				continue
 			}
 			report.Calls++
-			errS := kvStr(e, "err")
-			id := kvInt(e, "id")
+			errS := hlib.KVStr(e, "err")
+			id := hlib.KVInt(e, "id")
 			if errS == "" {
 				report.Issued++
 				if id <= lastIssued {
@@ -178,16 +179,16 @@ func guidTrace(args []string) int {
 					report.Rollovers++
 				}
 			}
-			shapes[fmt.Sprintf("%s/%v/%v", errS, kvInt(e, "sq") == 0, kvInt(e, "sq") == 4095)] = true
+			shapes[fmt.Sprintf("%s/%v/%v", errS, hlib.KVInt(e, "sq") == 0, hlib.KVInt(e, "sq") == 4095)] = true
 			if written < perRunBudget {
-				m := map[string]interface{}{"ev": "Guid", "n": kvInt(e, "node"), "ts": kvInt(e, "ts") - base,
-					"lastTs": kvInt(e, "lastTs") - base, "sq": kvInt(e, "sq"), "err": errS,
+				m := map[string]interface{}{"ev": "Guid", "n": hlib.KVInt(e, "node"), "ts": hlib.KVInt(e, "ts") - base,
+					"lastTs": hlib.KVInt(e, "lastTs") - base, "sq": hlib.KVInt(e, "sq"), "err": errS,
 					"idts": int64(0), "idnode": int64(0), "idsq": int64(0)}
 				if errS == "" || errS == "idbackwards" {
 					its, inode, isq := unpack(id)
 					m["idts"], m["idnode"], m["idsq"] = its-base, inode, isq
 				}
-				w.put(m)
+				w.Put(m)
 				written++
 				if len(report.Samples) < 6 && (errS != "" || written%5000 == 3) {
 					report.Samples = append(report.Samples, m)
@@ -196,10 +197,10 @@ func guidTrace(args []string) int {
 		}
 		report.Traces++
 	}
-	w.close()
-	report.TraceEvents = w.n
+	w.Close()
+	report.TraceEvents = w.N
 	report.DistinctShapes = len(shapes)
-	writeJSON(*rep, report)
+	hlib.WriteJSON(*rep, report)
 	if len(report.Violations) > 0 {
 		return 1
 	}
@@ -272,12 +273,12 @@ func guidReplay(args []string) int {
 				preID = ((T + (e.LastID[0] - e.Clock) - twepoch) << 22) | (nodeR << 12) | idSq
 			}
 			f.Inject(preTs, preSq, preID)
-			rec := &recorder{}
-			rec.install()
+			rec := &hlib.Recorder{}
+			rec.Install()
 			id, gerr := f.NewGUID()
-			rec.uninstall()
-			evs := rec.take()
-			if len(evs) != 1 || kvInt(evs[0], "ts") != T {
+			rec.Uninstall()
+			evs := rec.Take()
+			if len(evs) != 1 || hlib.KVInt(evs[0], "ts") != T {
 				continue // the millisecond ticked between injection and call: retry
 			}
 			ok = true
@@ -347,7 +348,7 @@ func guidReplay(args []string) int {
 		}
 	}
 	report.DistinctShapes = len(shapes)
-	writeJSON(*rep, report)
+	hlib.WriteJSON(*rep, report)
 	if len(report.Violations) > 0 {
 		return 1
 	}
